@@ -95,8 +95,14 @@ impl Harness for Life {
 
     for i in 0..=steps {
       if i == unsub_at && !unsubscribed {
-        sub.unsubscribe();
-        trace.push("unsubscribe".into());
+        if self.prop == "C05" && sym::choose("via_using", 2) == 1 {
+          // dropping a utils::Using guard unsubscribes
+          drop(another_rxrust::prelude::utils::Using::new(sub.clone()));
+          trace.push("drop(Using)".into());
+        } else {
+          sub.unsubscribe();
+          trace.push("unsubscribe".into());
+        }
         if sym::choose("unsub_twice", 2) == 1 {
           sub.unsubscribe();
           trace.push("unsubscribe".into());
